@@ -291,3 +291,476 @@ def c17(tier):
     chk.assumptions = ['TLC, Json module', 'the line lexer of the driver (tolerant in whitespace, leading zeros, section order); a benign reformatting of the listing it cannot lex would be reported']
     rm(wd)
     return chk.finish()
+
+
+# ------------------------------------------------------------------------------------------------ C07
+def c07(tier):
+    chk = Check('C07', tier)
+    chk.rule = ('spec->impl: TLC enumerates (MC_Syntax) all 13^3 operator triples, all operator pairs with one operand replaced by each of 9 operand forms at each position, all '
+                'unparenthesised if/then/else texts to depth 3, and postfix chains (read and assigned); the tree is prescribed by FMLSyntax (precedence climbing, nearest-if, left '
+                'nesting). impl->spec: seeded random ASTs in the parser range and the ASTs the parser produced for the in-repo corpus are printed back minimally, fully parenthesised '
+                'and with whitespace / line-comment / block-comment (UTF-8) decorations at token boundaries, and parsed again. TLC (TraceParse) compares the trees and checks '
+                'InParserRange. distinct_nontrivial = distinct source texts parsed and judged.')
+    exe = build('debug')
+    wd = scratch('c07')
+    r = tlc_or_die('MC_Syntax', workers=8, timeout=1800)
+    chk.add_tlc(r)
+    gen = r.lines.get('REPLAY', [])
+    kinds = {}
+    cases = []          # (name, text, expected ast)
+    for g in gen:
+        kinds[g['kind']] = kinds.get(g['kind'], 0) + 1
+        cases.append(('syntax:%s:%s' % (g['kind'], ' '.join(g['toks'])), ' '.join(g['toks']), g['ast']))
+    chk.notes['spec_generated_cases'] = kinds
+    rng = random.Random(seed())
+    # decorated copies of a sample of the spec-generated texts
+    for g in rng.sample(gen, min(len(gen), tier_sizes(tier, 300, 3000))):
+        from unparse import join
+        cases.append(('syntax-decorated:%s' % ' '.join(g['toks']), join(g['toks'], rng, 0.6), g['ast']))
+    # random ASTs and corpus ASTs, three printings each
+    base = pool.random_programs(tier_sizes(tier, 250, 8000), base_seed=seed() * 7121 + 6, size=35)
+    corp = pool.corpus()
+    couts = run_harness(exe, 'run', [{'id': i, 'text': p['text'], 'want': ['ast', 'parseonly']} for i, p in enumerate(corp)], wd, tag='c07c')
+    asts = [(p['name'], p['ast']) for p in base] + [(corp[i]['name'], o['ast']) for i, o in enumerate(couts) if o.get('parse') == 'ok' and 'ast' in o]
+    import copy
+    for name, ast in asts:
+        for mode in ('min', 'full', 'decorated', 'dotted'):
+            a = copy.deepcopy(ast)
+            if mode == 'min':
+                text = unparse(a, elseless=(rng.random() < 0.5))
+            elif mode == 'full':
+                text = unparse(a, full=True)
+            elif mode == 'decorated':
+                text = unparse(a, rng=rng, decorate=0.5, full=(rng.random() < 0.3))
+            else:
+                text = unparse(a, infix=False)          # operators written as method calls  a.+(b)
+            cases.append(('%s [%s]' % (name, mode), text, strip_marks(ast)))
+    recs = [{'id': i, 'text': c[1], 'want': ['ast', 'parseonly']} for i, c in enumerate(cases)]
+    outs = run_harness(exe, 'run', recs, wd, tag='c07p', jobs=16)
+    pairs = []
+    for i, o in enumerate(outs):
+        st = 'panic' if o.get('crash') is not None else o.get('parse', 'panic')
+        pairs.append({'id': i, 'expected': cases[i][2], 'parsed': o.get('ast', {'t': 'none'}), 'status': st})
+        chk.count(hashlib.sha1(cases[i][1].encode()).hexdigest())
+    counts = {}
+    for b in range(0, len(pairs), 4000):
+        part = pairs[b:b + 4000]
+        path = os.path.join(wd, 'pairs.%d.ndjson' % b)
+        write_ndjson(path, part)
+        rt = tlc_or_die('TraceParse', env={'PAIRS': path}, workers=12, timeout=1800, tag='c07t')
+        chk.add_tlc(rt)
+        vs = {v['id']: v for v in rt.lines.get('VERDICT', [])}
+        if len(vs) != len(part):
+            raise ToolError('TraceParse: %d verdicts for %d pairs' % (len(vs), len(part)))
+        for rec in part:
+            v = vs[rec['id']]['verdict']
+            counts[v] = counts.get(v, 0) + 1
+            chk.traces += 1
+            if v == 'expected-tree-outside-parser-range':
+                raise ToolError('C07: a generated tree is outside InParserRange: %s' % cases[rec['id']][0])
+            if v != 'ok':
+                name, text, exp = cases[rec['id']]
+                chk.violation('%s: %s' % (name[:160], v), {'case': name, 'source': text[:3000], 'expected_ast': exp if len(json.dumps(exp)) < 6000 else 'large',
+                                                      'parsed_ast': rec['parsed'] if len(json.dumps(rec['parsed'])) < 6000 else 'large',
+                                                      'parse_msg': outs[rec['id']].get('parse_msg', '')[:300], 'signature': {'kind': 'parse', 'verdict': v}})
+    chk.notes['verdict_counts'] = counts
+    chk.notes['round_trip_texts'] = len(asts) * 4
+    chk.exhaustive = True
+    chk.notes['exhaustive_scope'] = 'operator triples, operand-form pairs, if/else texts to depth 3 and postfix chains are enumerated completely; the AST round trip is sampled'
+    for k in (5, len(gen) // 2, len(cases) - 2):
+        chk.sample({'case': cases[k][0][:120], 'text': cases[k][1][:240]})
+    chk.assumptions = ['TLC, Json module', 'AST projection norm.rs', 'the Python unparser only produces inputs; the expected tree is the AST it was given']
+    rm(wd)
+    return chk.finish()
+
+
+# ------------------------------------------------------------------------------------------------ C06
+NASTY_STRINGS = [
+    'plain', '', ' ', '  lead and trail  ', 'a: b', '- item', '# not a comment', 'key: [1, 2]', '{a: 1}', '| block', '> folded', "it's", 'say \\"hi\\"', '& anchor *alias', '!tag', '%dir', '@at `tick`',
+    'null', 'true', 'yes', 'no', '~', '1e3', '0x10', '012', '.inf', '-', '--- ', '...', '? q', ',', 'a,b', '(paren)', '(', ')', ';semi', "'quote", '#t', '#\\\\a', '|sym|', 'a\\\\\\\\b', '\\\\n literal backslash-n then real:\n',
+    'tab\there', 'cr\rhere', 'crlf\r\nhere', 'bell\x07', 'esc\x1b[0m', 'nul\x00byte', 'del\x7f', 'nel\x85', 'ls ps ', '﻿bom', 'é世', '\U0001F600 astral \U0001F44D\U0001F3FD', 'RTL ‮ abc',
+    'line1\nline2\n\nline4', 'trailing newline\n', '\n leading newline', 'x' * 300, '~ ~ \\~ \\t \\r \\n \\\\ \\"', '<tag attr=\\"v\\">&amp;</tag>', '$VAR ${x} %s %d', 'a' + '\t' * 5 + 'b', ': ', ' #', "''", '""'.replace('"', '\\"'),
+]
+
+
+def nasty_program(s, i):
+    # the string is the format of a print that has no placeholders unless it contains ~ (then arguments are supplied)
+    n = 0
+    esc = False
+    for ch in s:
+        if esc:
+            esc = False
+        elif ch == '\\':
+            esc = True
+        elif ch == '~':
+            n += 1
+    return Top([Let('v%d' % i, I(i)), {'t': 'Print', 'f': list(s.encode('utf-8')), 'args': [I(k) for k in range(n)]}, Pr('|\\n')])
+
+
+def depth_program(kind, d):
+    if kind == 'block':
+        return 'begin ' * d + 'print("b\\n")' + ' end' * d
+    if kind == 'op':
+        return 'print("~\\n", ' + '1 + (' * d + '1' + ')' * d + ')'
+    if kind == 'if':
+        return 'print("~\\n", ' + 'if true then ' * d + '1' + ' else 0' * d + ')'
+    if kind == 'call':
+        return 'function f(a) -> a + 1; print("~\\n", ' + 'f(' * d + '0' + ')' * d + ')'
+    if kind == 'object':
+        return 'print("~\\n", ' + 'object extends ' * d + 'null' + ' begin let a = 1 end' * d + ')'
+    return 'print("~\\n", ' + 'array(1, ' * d + '0' + ')' * d + ')'
+
+
+def artifact_depth(text, fmt):
+    """nesting depth of a serialized AST: brackets for JSON, parentheses for LISP (strings skipped)"""
+    opens, closes = ('[{', ']}') if fmt == 'json' else ('(', ')')
+    d = m = 0
+    ins = esc = False
+    for ch in text:
+        if ins:
+            if esc:
+                esc = False
+            elif ch == '\\':
+                esc = True
+            elif ch == '"':
+                ins = False
+        elif ch == '"':
+            ins = True
+        elif ch in opens:
+            d += 1
+            m = max(m, d)
+        elif ch in closes:
+            d -= 1
+    return m
+
+
+def yaml_depth(json_text):
+    """nesting of sequences and struct-variant mappings in the serde representation of an AST (what serde_yaml's recursion
+    counter counts; the single-key mapping that tags an enum variant is not a level), computed from the JSON form"""
+    import sys
+    sys.setrecursionlimit(20000)
+    try:
+        node = json.loads(json_text)
+    except Exception:
+        return -1
+
+    def dn(n):
+        if isinstance(n, dict) and len(n) == 1:
+            v = list(n.values())[0]
+            if isinstance(v, dict):
+                return 1 + max([df(x) for x in v.values()] or [0])
+            if isinstance(v, list):
+                return 1 + max([dn(x) for x in v] or [0])
+            return 0
+        return 0
+
+    def df(x):
+        if isinstance(x, list):
+            return 1 + max([dn(y) for y in x] or [0])
+        return dn(x)
+    return dn(node)
+
+
+# the AST deserializers have a fixed recursion limit (known finding D6); measured on the pinned tree:
+# serde_json refuses bracket depth >= 128, serde-lexpr parenthesis depth >= 128, serde_yaml more than 128 nested sequences / struct mappings
+DEPTH_LIMIT = {'json': ('json', 128), 'lisp': ('lisp', 128), 'yaml': ('json', 129)}
+
+
+def run_stage(exe, wd, args, stdin_path=None, capture_to=None):
+    stdin = open(os.path.join(wd, stdin_path), 'rb') if stdin_path else subprocess.DEVNULL
+    try:
+        p = subprocess.run([exe] + args, cwd=wd, stdin=stdin, stdout=subprocess.PIPE, stderr=subprocess.PIPE, timeout=60)
+    except subprocess.TimeoutExpired:
+        return 124, b'', b'timeout'
+    finally:
+        if stdin_path:
+            stdin.close()
+    if capture_to:
+        open(os.path.join(wd, capture_to), 'wb').write(p.stdout)
+    return p.returncode, p.stdout, p.stderr
+
+
+def replay_path(exe, root, pi, path, text):
+    """replay one configuration path of FMLPipeline on the real binary in its own directory; returns observation dict"""
+    wd = os.path.join(root, 'w%d' % pi)
+    for d in ('a', 'b', 'd', 'e'):
+        os.makedirs(os.path.join(wd, d), exist_ok=True)
+    open(os.path.join(wd, 'prog.fml'), 'w', encoding='utf-8').write(text)
+    P, C, E = path['parse'], path['compile'], path['execute']
+    args = ['parse'] + (['prog.fml'] if P['in'] == 'file' else []) + (['--format', P['fmt']] if P['explicit'] else [])
+    args += {'file': ['-o', 'a/tree.' + P['fmt']], 'fileneutral': ['-o', 'a/tree.out'], 'dir': ['-o', 'd'], 'stdout': []}[P['out']]
+    rc, so, se = run_stage(exe, wd, args, stdin_path=('prog.fml' if P['in'] == 'stdin' else None), capture_to=('a/captured.txt' if P['out'] == 'stdout' else None))
+    obs = {'stages': [('parse', rc)], 'stderr': se}
+    if rc != 0 or not os.path.exists(os.path.join(wd, path['ast']['path'])):
+        obs['failed'] = 'parse' if rc != 0 else 'parse-artifact-missing'
+        return obs
+    args = ['compile'] + ([path['ast']['path']] if C['in'] == 'file' else []) + (['--input-format', C['fmt']] if C['explicit'] else [])
+    args += {'file': ['-o', 'b/code.bc'], 'dir': ['-o', 'e'], 'stdout': []}[C['out']]
+    rc, so, se = run_stage(exe, wd, args, stdin_path=(path['ast']['path'] if C['in'] == 'stdin' else None), capture_to=('b/captured.bin' if C['out'] == 'stdout' else None))
+    obs['stages'].append(('compile', rc))
+    obs['stderr'] = se
+    bcp = os.path.join(wd, path['bc']['path'])
+    if rc != 0 or not os.path.exists(bcp):
+        obs['failed'] = 'compile' if rc != 0 else 'compile-artifact-missing'
+        return obs
+    obs['bc'] = open(bcp, 'rb').read()
+    args = ['execute'] + ([path['bc']['path']] if E['in'] == 'file' else [])
+    rc, so, se = run_stage(exe, wd, args, stdin_path=(path['bc']['path'] if E['in'] == 'stdin' else None))
+    obs['stages'].append(('execute', rc))
+    obs['exit'] = rc
+    obs['stdout'] = so
+    obs['stderr'] = se
+    return obs
+
+
+def c06(tier):
+    chk = Check('C06', tier)
+    chk.rule = ('TLC explores the stage machine FMLPipeline and prints every complete configuration path (input file|stdin, -o file|dir|stdout, format explicit|inferred, x json|lisp|yaml; '
+                '468 paths, artifact names predicted by the model); each path is replayed with real subprocesses for payload programs (corpus programs, format strings over control '
+                'characters / YAML-, S-expression-, JSON-significant text / astral and BOM code points, AST nesting depth 1..400 in six shapes) and compared with `fml run` (file and stdin) and '
+                'the repository wrapper script by FMLObservations (exit status + stdout; compiled bytes vs the in-process compiler); AST identity per format is checked in-process on every '
+                'payload and on seeded random ASTs and judged by TraceParse. distinct_nontrivial = distinct (payload, path) replays + distinct (AST, format) reloads.')
+    exe = build('debug')
+    wd = scratch('c06')
+    r = tlc_or_die('FMLPipeline', workers=4, timeout=600)
+    chk.add_tlc(r)
+    paths = r.lines.get('REPLAY', [])
+    paths.sort(key=lambda p: json.dumps(p, sort_keys=True))
+    chk.notes['configuration_paths'] = len(paths)
+    rng = random.Random(seed())
+    # ---- payloads
+    payloads = []
+    corp = [p for p in pool.corpus() if 'brainfuck' not in p['name']]
+    for p in rng.sample(corp, min(len(corp), tier_sizes(tier, 3, 30))):
+        payloads.append({'name': p['name'], 'text': p['text'], 'ast': None, 'paths': 'some'})
+    for i, s in enumerate(NASTY_STRINGS):
+        ast = nasty_program(s, i)
+        payloads.append({'name': 'string:%d:%r' % (i, s[:24]), 'text': unparse(ast), 'ast': ast, 'paths': 'few'})
+    depths = [1, 2, 10, 40, 41, 42, 61, 62, 63, 64, 100, 125, 126, 127, 128, 129, 200, 400] if tier == 'thorough' else [1, 30, 62, 63, 126, 128, 400]
+    for kind in ('block', 'op', 'if', 'call', 'object', 'array'):
+        for d in depths:
+            payloads.append({'name': 'depth:%s:%d' % (kind, d), 'text': depth_program(kind, d), 'ast': None, 'paths': 'formats', 'depth': d})
+    payloads.append({'name': 'corpus:examples/brainfuck.fml', 'text': [p for p in pool.corpus() if 'brainfuck' in p['name']][0]['text'], 'ast': None, 'paths': 'formats'})
+    payloads.insert(0, {'name': 'all-paths:mixed', 'text': 'function f(a) -> a * 2; let o = object begin let x = 1; function m(k) -> this.x + k end; let a = array(3, f(2)); print("é~ ~ ~\\n", o.m(1), a, f(5)); a[5]', 'ast': None, 'paths': 'all'})
+    payloads.insert(1, {'name': 'all-paths:hello', 'text': 'print("Hello: \\"world\\" #1\\n")', 'ast': None, 'paths': 'all' if tier == 'thorough' else 'some'})
+    # representative paths per format (one straightforward path per format + the stdin/dir/stdout corners)
+    def pick(pred):
+        return [p for p in paths if pred(p)]
+    per_format = [pick(lambda p, f=f: p['parse']['fmt'] == f and p['parse']['out'] == 'file' and p['parse']['explicit'] and p['compile']['in'] == 'file' and not p['compile']['explicit']
+                       and p['compile']['out'] == 'file' and p['execute']['in'] == 'file' and p['parse']['in'] == 'file')[0] for f in ('json', 'lisp', 'yaml')]
+    tasks = []
+    for pi, pl in enumerate(payloads):
+        if pl['paths'] == 'all':
+            chosen = paths
+        elif pl['paths'] == 'formats':
+            chosen = per_format
+        elif pl['paths'] == 'few':
+            chosen = per_format + rng.sample(paths, 2 if tier != 'thorough' else 8)
+        else:
+            chosen = per_format + rng.sample(paths, 12 if tier != 'thorough' else 60)
+        for path in chosen:
+            tasks.append((pi, path))
+    from concurrent.futures import ThreadPoolExecutor
+
+    def do(k):
+        pi, path = tasks[k]
+        return replay_path(exe, wd, k, path, payloads[pi]['text'])
+    with ThreadPoolExecutor(max_workers=12) as ex:
+        results = list(ex.map(do, range(len(tasks))))
+    # reference observations: fml run (file, stdin), wrapper script, in-process compile
+    hrecs = [{'id': i, 'text': pl['text'], 'want': []} for i, pl in enumerate(payloads)]
+    houts = run_harness(exe, 'run', hrecs, wd, tag='c06h')
+    obs = []
+    refs = {}
+    for pi, pl in enumerate(payloads):
+        rd = os.path.join(wd, 'ref%d' % pi)
+        os.makedirs(rd)
+        open(os.path.join(rd, 'prog.fml'), 'w', encoding='utf-8').write(pl['text'])
+        rc, so, se = run_stage(exe, rd, ['run', 'prog.fml'])
+        refs[pi] = (rc, so)
+        val = {'status': 'ok' if rc == 0 else ('crash' if rc < 0 or rc >= 128 else 'fail'), 'stdout': hashlib.sha1(so).hexdigest()}
+        obs.append({'key': pl['name'] + ' :: outcome', 'val': val, 'cfg': 'fml run FILE', 'pi': pi})
+        rc2, so2, se2 = run_stage(exe, rd, ['run'], stdin_path='prog.fml')
+        obs.append({'key': pl['name'] + ' :: outcome', 'val': {'status': 'ok' if rc2 == 0 else ('crash' if rc2 < 0 or rc2 >= 128 else 'fail'), 'stdout': hashlib.sha1(so2).hexdigest()}, 'cfg': 'fml run < stdin', 'pi': pi})
+        if pl['paths'] in ('all', 'some') or pl['name'].endswith('brainfuck.fml'):
+            env = dict(os.environ, PARSER=exe, COMPILER=exe, INTERPRETER=exe)
+            try:
+                pw = subprocess.run(['bash', os.path.join(REPO, 'fml'), 'run', 'prog.fml'], cwd=rd, env=env, stdout=subprocess.PIPE, stderr=subprocess.PIPE, timeout=60)
+                obs.append({'key': pl['name'] + ' :: outcome', 'val': {'status': 'ok' if pw.returncode == 0 else 'fail', 'stdout': hashlib.sha1(pw.stdout).hexdigest()}, 'cfg': 'wrapper script `fml run` (parse -> JSON -> compile -> execute)', 'pi': pi, 'stderr': pw.stderr.decode('utf-8', 'replace')[:500], 'reclimit': b'recursion limit exceeded' in pw.stderr, 'format': 'json'})
+            except subprocess.TimeoutExpired:
+                pass
+        if 'bytes' in houts[pi]:
+            obs.append({'key': pl['name'] + ' :: bytes', 'val': {'bc': hashlib.sha1(bytes(houts[pi]['bytes'])).hexdigest()}, 'cfg': 'in-process compile (what run executes)', 'pi': pi})
+    for k, (pi, path) in enumerate(tasks):
+        o = results[k]
+        pl = payloads[pi]
+        cfg = 'parse[%s %s %s%s] compile[%s %s%s] execute[%s]' % (path['parse']['in'], path['parse']['out'], path['parse']['fmt'], ' explicit' if path['parse']['explicit'] else ' inferred',
+                                                                  path['compile']['in'], path['compile']['out'], ' explicit' if path['compile']['explicit'] else ' inferred', path['execute']['in'])
+        chk.count((pl['name'], cfg))
+        if 'failed' in o:
+            val = {'status': 'fail', 'stdout': hashlib.sha1(b'').hexdigest()}          # a stage that refuses = a failure before any output
+            obs.append({'key': pl['name'] + ' :: outcome', 'val': val, 'cfg': cfg, 'pi': pi, 'failed': o['failed'], 'stderr': o['stderr'].decode('utf-8', 'replace')[:500], 'reclimit': b'recursion limit exceeded' in o['stderr'], 'format': path['parse']['fmt'], 'task': k})
+            continue
+        rc = o['exit']
+        obs.append({'key': pl['name'] + ' :: outcome', 'val': {'status': 'ok' if rc == 0 else ('crash' if rc < 0 or rc >= 128 else 'fail'), 'stdout': hashlib.sha1(o['stdout']).hexdigest()}, 'cfg': cfg, 'pi': pi, 'task': k})
+        obs.append({'key': pl['name'] + ' :: bytes', 'val': {'bc': hashlib.sha1(o['bc']).hexdigest()}, 'cfg': cfg, 'pi': pi, 'task': k})
+    opath = os.path.join(wd, 'obs.ndjson')
+    write_ndjson(opath, [{'key': o['key'], 'val': o['val'], 'cfg': o['cfg']} for o in obs])
+    ro = tlc_or_die('FMLObservations', env={'OBS': opath}, workers=1, timeout=1200)
+    chk.add_tlc(ro)
+    if not ro.lines.get('DONE'):
+        raise ToolError('FMLObservations did not reach the end of the history')
+    for inc in ro.lines.get('INCONSISTENT', []):
+        a, b = obs[inc['first'] - 1], obs[inc['second'] - 1]
+        pl = payloads[b['pi']]
+        sig = {'kind': 'pipeline-differs'}
+        if b['val'].get('status') == 'fail' and b.get('reclimit') and a['val'].get('status') != b['val'].get('status'):
+            # D6: measure the nesting depth of the serialized AST this stage was given
+            fmt = b.get('format', 'json')
+            metric, limit = DEPTH_LIMIT[fmt]
+            rd = os.path.join(wd, 'ref%d' % b['pi'])
+            rc, so, se = run_stage(exe, rd, ['parse', 'prog.fml', '--format', metric])
+            txt = so.decode('utf-8', 'replace')
+            depth = -1 if rc != 0 else (yaml_depth(txt) if fmt == 'yaml' else artifact_depth(txt, metric))
+            sig = {'kind': 'stage-refuses', 'stage': 'compile', 'error': 'recursion-limit', 'format': fmt, 'serialized_depth_at_least_limit': depth >= limit}
+        chk.violation('%s: `%s` gives %s but `%s` gives %s' % (inc['key'], a['cfg'], a['val'].get('status', a['val'].get('bc', ''))[:12], b['cfg'], b['val'].get('status', b['val'].get('bc', ''))[:12]),
+                      {'payload': pl['name'], 'source': pl['text'][:1500], 'first': {k: v for k, v in a.items() if k != 'pi'}, 'second': {k: v for k, v in b.items() if k != 'pi'}, 'signature': sig})
+    chk.traces += len(obs)
+    # ---- AST identity per format, in-process
+    arecs = []
+    extra = pool.random_programs(tier_sizes(tier, 150, 4000), base_seed=seed() * 1877 + 8)
+    cases = [(pl['name'], pl['ast'], pl['text']) for pl in payloads if pl['paths'] != 'formats'] + [(p['name'], p['ast'], p['text']) for p in extra]
+    for i, (nm, ast, text) in enumerate(cases):
+        arecs.append({'id': i, 'ast': strip_marks(ast)} if ast is not None else {'id': i, 'text': text})
+    aouts = run_harness(exe, 'astser', arecs, wd, tag='c06a')
+    pairs, pmeta = [], {}
+    for i, o in enumerate(aouts):
+        if o.get('parse') != 'ok' or 'ast' not in o:
+            continue
+        for fmt in ('json', 'lisp', 'yaml'):
+            f = (o.get('formats') or {}).get(fmt, {})
+            st = 'ok' if (f.get('ser') == 'ok' and f.get('de') == 'ok') else ('panic' if 'panic' in (f.get('ser'), f.get('de')) else 'err')
+            j = len(pairs)
+            pmeta[j] = (i, fmt, f.get('msg', ''))
+            pairs.append({'id': j, 'expected': o['ast'], 'parsed': f.get('ast', {'t': 'none'}), 'status': st})
+            chk.count((cases[i][0], 'reload:' + fmt))
+    for b in range(0, len(pairs), 3000):
+        part = pairs[b:b + 3000]
+        ppath = os.path.join(wd, 'astpairs.%d.ndjson' % b)
+        write_ndjson(ppath, part)
+        rt = tlc_or_die('TraceParse', env={'PAIRS': ppath}, workers=12, timeout=1800, tag='c06t')
+        chk.add_tlc(rt)
+        vs = {v['id']: v for v in rt.lines.get('VERDICT', [])}
+        if len(vs) != len(part):
+            raise ToolError('TraceParse: %d verdicts for %d pairs' % (len(vs), len(part)))
+        for rec in part:
+            v = vs[rec['id']]['verdict']
+            chk.traces += 1
+            if v not in ('ok', 'expected-tree-outside-parser-range'):
+                i, fmt, msg = pmeta[rec['id']]
+                chk.violation('%s: AST does not survive the %s interchange format (%s) %s' % (cases[i][0], fmt, v, msg[:80]),
+                              {'payload': cases[i][0], 'source': cases[i][2][:1500], 'format': fmt, 'verdict': v, 'msg': msg[:300], 'signature': {'kind': 'ast-reload', 'format': fmt, 'verdict': v}})
+    chk.notes.update({'payloads': len(payloads), 'path_replays': len(tasks), 'observations': len(obs), 'ast_reload_pairs': len(pairs)})
+    chk.sample({'payload': payloads[0]['name'], 'path': tasks[0][1], 'stages': results[0].get('stages')})
+    chk.sample({'payload': payloads[5]['name'], 'text': payloads[5]['text'][:120]})
+    chk.assumptions = ['TLC, Json module', 'exit status and stdout of subprocesses as the shell reports them', 'serialized-depth metric for the known finding D6 (brackets / parentheses outside strings)']
+    rm(wd)
+    return chk.finish()
+
+
+# ------------------------------------------------------------------------------------------------ C11
+def order_sensitive_programs(rng, n):
+    """programs with many names in every hashed table: globals, functions, locals in nested scopes, labels, fields, methods"""
+    out = []
+    for k in range(n):
+        names = ['g%s%d' % (rng.choice('abcdefghij'), i) for i in range(rng.randint(8, 25))]
+        names = list(dict.fromkeys(names))
+        es = [Let(nm, I(i)) for i, nm in enumerate(names)]
+        for i in range(rng.randint(3, 9)):
+            ps = ['p%d' % j for j in range(rng.randint(0, 3))]
+            body = Blk([Let('l%d' % j, I(j)) for j in range(rng.randint(1, 5))] +
+                       [If(Op('<', V(rng.choice(names)), I(5)), Blk([Let('in%d' % i, I(1)), Pr('~;', [V('in%d' % i)])]), Pr('e;')),
+                        Op('+', V('l0'), V(rng.choice(names)))])
+            es.append(Fun('fn%s%d' % (rng.choice('xyz'), i), ps, body))
+        fields = list(dict.fromkeys(rng.choice('abcxyzABC_') + rng.choice('abcxyz019_') for _ in range(rng.randint(3, 10))))
+        members = [Let(f, I(i)) for i, f in enumerate(fields)] + [Fun('m%d' % i, [], I(i)) for i in range(rng.randint(1, 5))]
+        rng.shuffle(members)
+        es.append(Let('obj', Obj(N(), members)))
+        es.append(Pr('~\\n', [V('obj')]))
+        for i in range(rng.randint(2, 6)):
+            es.append(Wh(Op('<', V(names[0]), I(i)), Asg(names[0], Op('+', V(names[0]), I(1)))))
+        es.append(Pr(' '.join(['~'] * min(len(names), 6)) + '\\n', [V(nm) for nm in names[:6]]))
+        ast = Top(es)
+        out.append({'name': 'hashy:%d' % k, 'text': unparse(ast), 'ast': ast})
+    return out
+
+
+def c11(tier):
+    chk = Check('C11', tier)
+    chk.rule = ('every program (corpus, seeded random programs, programs with many names in every hashed table) is compiled and executed repeatedly: twice in one process, in three '
+                'fresh processes (fresh hash seeds) of the debug build and two of the release build, and through the real `fml compile`/`fml run` command line; the history of observations '
+                '(program -> compiled bytes, bytes -> status + output) is validated by TLC against FMLObservations: a result is a function of its key and may not depend on run number, '
+                'process or build profile. distinct_nontrivial = distinct (program, observation source) pairs.')
+    wd = scratch('c11')
+    rng = random.Random(seed())
+    progs = pool.corpus() + pool.random_programs(tier_sizes(tier, 80, 3000), base_seed=seed() * 2957 + 10) + order_sensitive_programs(rng, tier_sizes(tier, 25, 500))
+    recs = [{'id': i, 'text': p['text'], 'want': ['run', 'repeat'], 'budget': 20000} for i, p in enumerate(progs)]
+    obs = []
+
+    def add(i, what, val, cfg):
+        obs.append({'key': '%s :: %s' % (progs[i]['name'], what), 'val': val, 'cfg': cfg})
+        chk.count((progs[i]['name'], cfg))
+    for profile, rounds in (('debug', 3), ('release', 2)):
+        exe = build(profile)
+        for rd in range(rounds):
+            outs = run_harness(exe, 'run', recs, wd, tag='c11%s%d' % (profile[0], rd), jobs=4 + rd)
+            for i, o in enumerate(outs):
+                cfg = '%s process %d' % (profile, rd + 1)
+                if o.get('crash') is not None:
+                    add(i, 'bytes', {'d': 'crash'}, cfg)
+                    continue
+                stage = 'ok' if 'bytes' in o else 'rejected:%s/%s' % (o.get('parse'), o.get('compile'))
+                add(i, 'bytes', {'d': hashlib.sha1(bytes(o.get('bytes', []))).hexdigest(), 'stage': stage}, cfg)
+                if 'bytes_again' in o:
+                    add(i, 'bytes', {'d': hashlib.sha1(bytes(o['bytes_again'])).hexdigest(), 'stage': 'ok'}, cfg + ' (second compile in the same process)')
+                run = o.get('run')
+                if run and not run.get('diverged'):
+                    add(i, 'outcome', {'ok': bool(run.get('ok')), 'out': hashlib.sha1(bytes(run.get('out', []))).hexdigest()}, cfg)
+                ra = o.get('run_again')
+                if ra and not ra.get('diverged'):
+                    add(i, 'outcome', {'ok': bool(ra.get('ok')), 'out': hashlib.sha1(bytes(ra.get('out', []))).hexdigest()}, cfg + ' (second run in the same process)')
+            if profile == 'debug' and rd == 0:
+                first = outs
+        # the real command line on a sample
+        for i in rng.sample(range(len(progs)), min(len(progs), tier_sizes(tier, 25, 300))):
+            if 'bytes' not in first[i] or (first[i].get('run') or {}).get('diverged'):
+                continue
+            src = os.path.join(wd, 'c%d.fml' % i)
+            open(src, 'w', encoding='utf-8').write(progs[i]['text'])
+            js = os.path.join(wd, 'c%d.json' % i)
+            bc = os.path.join(wd, 'c%d.%s.bc' % (i, profile))
+            rc, _, _ = sh([exe, 'parse', src, '--format', 'json', '-o', js], wd)
+            rc2, _, _ = sh([exe, 'compile', js, '-o', bc], wd) if rc == 0 else (1, b'', b'')
+            if rc2 == 0:
+                add(i, 'bytes', {'d': hashlib.sha1(open(bc, 'rb').read()).hexdigest(), 'stage': 'ok'}, '%s `fml parse | fml compile`' % profile)
+            rc3, so, se = sh([exe, 'run', src], wd)
+            add(i, 'outcome', {'ok': rc3 == 0, 'out': hashlib.sha1(so).hexdigest()}, '%s `fml run`' % profile)
+    opath = os.path.join(wd, 'obs.ndjson')
+    write_ndjson(opath, obs)
+    ro = tlc_or_die('FMLObservations', env={'OBS': opath}, workers=1, timeout=1800, dfs=True)
+    chk.add_tlc(ro)
+    if not ro.lines.get('DONE'):
+        raise ToolError('FMLObservations did not reach the end of the history')
+    for inc in ro.lines.get('INCONSISTENT', []):
+        a, b = obs[inc['first'] - 1], obs[inc['second'] - 1]
+        name = inc['key'].split(' :: ')[0]
+        p = [x for x in progs if x['name'] == name][0]
+        chk.violation('%s differs between [%s] and [%s]' % (inc['key'], a['cfg'], b['cfg']),
+                      {'program': name, 'source': p['text'][:3000], 'first': a, 'second': b, 'signature': {'kind': 'nondeterminism', 'what': inc['key'].split(' :: ')[1]}})
+    chk.traces += len(obs)
+    chk.notes.update({'programs': len(progs), 'observations': len(obs), 'keys': ro.lines['DONE'][0]['keys']})
+    chk.sample(obs[0])
+    chk.sample(obs[len(obs) // 2])
+    chk.assumptions = ['TLC, Json module', 'SHA-1 digests stand for the byte strings they summarise']
+    rm(wd)
+    return chk.finish()
